@@ -1,4 +1,6 @@
 -- property: C14
+-- assumes: all parties derive with the same tweak (bip32.DeriveScalar is a function of public data: public key, chain key, index)
+-- assumes: the shares are evaluations of one polynomial of degree t at pairwise distinct non-zero identifier scalars (key generation)
 -- Threshold key derivation. Composition lemma over contracts proved on the real code:
 --   cmp/config.(*Config).Derive, frost/keygen.(*Config).Derive / (*TaprootConfig).Derive: the child is a NEW configuration,
 --     its share is share + adjust, every party's public share is X_j + adjust*G, the parent is untouched
